@@ -28,6 +28,9 @@ func runC02(c *an.Ctx) {
 	r02h(c)
 	// shared with C12: a target that could not be reached or did not answer must appear in the aggregated answer as an error
 	r12f(c)
+	// shared with C12: an answer is credited to the pending call of its own (command id, target) pair only - an answer
+	// credited to another target's call hides that target's failure or silence from the transition
+	c.As(map[string]string{"R12e": "R02i"}, func() { r12e(c) })
 }
 
 // transitionDos returns the `do` methods of all implementers of environment.Transition.
